@@ -488,6 +488,18 @@ def judge_concrete(case: dict[str, Any]) -> list[tuple[str, str]]:
         items = v if isinstance(v, list) else [v]
         index[name] = list(range(len(flat), len(flat) + len(items)))
         flat += items
+    # the results may only mention the system's own coordinates: anything else (e.g. base scalars of ANOTHER coordinate
+    # system object leaking in through shared state) makes the result meaningless as a field of this system
+    qset = set(q)
+    for name, idxs in index.items():
+        for j in idxs:
+            foreign = [str(a) for a in sympy.sympify(flat[j]).free_symbols if a not in qset]
+            foreign += [str(a) for a in sympy.sympify(flat[j]).atoms(sympy.vector.scalar.BaseScalar)]
+            if foreign:
+                out.append((f"foreign-symbols:{sysname}:{name}", f"{sysname} {name} of {case['comps']} contains symbols that are not "
+                    f"coordinates of the field's own system: {sorted(set(foreign))[:4]} in {str(flat[j])[:200]}"))
+    if out:
+        return out
     # identity residuals are judged relative to the sum of |top-level terms|
     ident_terms: dict[int, Any] = {}
     for name in ("curlgrad", "divcurl"):
